@@ -410,7 +410,15 @@ def oracle(prop, run):
         LEGAL = {("VIRTUAL", "RELEASED"), ("RELEASED", "SCHEDULED"), ("VIRTUAL", "SCHEDULED"), ("SCHEDULED", "RUNNING"), ("RUNNING", "COMPLETED"),
                  ("SCHEDULED", "VIRTUAL"), ("SCHEDULED", "RELEASED"), ("VIRTUAL", "CANCELLED"), ("RELEASED", "CANCELLED"), ("SCHEDULED", "CANCELLED")}
         last = {}
+        before_sched = {}
         for e in mon:
+            if e["ev"] == "transition" and e["via"] == "schedule" and e["pre"] != "SCHEDULED":
+                before_sched[e["t"]] = e["pre"]
+            if e["ev"] == "transition" and e["via"] == "unschedule" and e["pre"] == "SCHEDULED" and e["t"] in before_sched:
+                # "may fall back from SCHEDULED to its earlier state": the state it was scheduled from
+                want = before_sched[e["t"]]
+                if e["post"] in ("RELEASED", "VIRTUAL") and e["post"] != want:
+                    yield (f"C06 unschedule-falls-back-to-{e['post']}-instead-of-the-earlier-state-{want}", {"event": e})
             if e["ev"] == "noop_call":
                 yield (f"C06 lifecycle-call-returned-without-changing-the-state via={e['via']} state={e['state']}", {"event": e})
             if e["ev"] != "transition":
